@@ -4,11 +4,13 @@ CONSTANTS
   DelOrd <- DelOrdC
   DenOrd <- DenOrdC
   BondDenom = "stake"
-  FixF1 = FALSE
-  FixF2 = FALSE
-  FixF4 = FALSE
-  FixF5 = FALSE
-  FixF6 = FALSE
-  FixF7 = FALSE
+  FixF1 = TRUE
+  FixF2 = TRUE
+  FixF4 = TRUE
+  FixF5 = TRUE
+  FixF6 = TRUE
+  FixF7 = TRUE
+  FixN1 = TRUE
+  FixN3 = TRUE
 POSTCONDITION Consumed
 CHECK_DEADLOCK FALSE
